@@ -392,7 +392,10 @@ pub fn tdd_setup(nodes: usize, cache: usize, threads: u32, nvars: u32, order: &[
     let mref = oxidd::tdd::new_manager(nodes, cache, threads);
     mref.with_manager_exclusive(|m| {
         if threads > 1 {
-            m.workers().set_split_depth(Some(u32::MAX));
+            // mostly MAX (parallel recursion throughout); otherwise a small depth, so that the
+            // parallel recursor hands over to the sequential one inside an operation
+            let d = [u32::MAX, 1, u32::MAX, 2][(cache.trailing_zeros() as usize + nvars as usize + order.first().copied().unwrap_or(0) as usize) % 4];
+            m.workers().set_split_depth(Some(d));
         }
         m.add_vars(nvars);
     });
